@@ -412,6 +412,13 @@ theorem source_shape :
     Kit.Generated.C06.tokenCap = 1 ∧ Kit.Generated.C06.resetCap = 1 ∧ Kit.Generated.C06.stopCap = 0 := by
   decide
 
+/-- queue.go orders the heap by `Before`/`After`/`Compare` on the `time.Time` values themselves (the model
+orders by an unbounded integer), not by integers derived from them, and a heap entry holds nothing
+but the value and its index. -/
+theorem heap_order_on_time_values :
+    Kit.Generated.C06.heapLessShape = "timeBefore" ∧ Kit.Generated.C06.queueItemFields = ["value", "index"] := by
+  decide
+
 /-- The margin is positive (needed by `not_early`: a fired timer is never "early"). -/
 theorem margin_positive : 0 < halfMs := by decide
 
